@@ -8,8 +8,8 @@ from . import pcommon as pc
 def run(tier):
     ck = C.Check("C03", tier)
     failed = ck.proofs()
-    n_g, n_r = (45, 14) if tier == "quick" else (2500, 40)
-    res = P.run_family(ck, n_g, n_r, p_err=0.3, want_hist=False)
+    n_g, n_r = (45, 14) if tier == "quick" else (700, 30)
+    res = P.run_family(ck, n_g, n_r, p_err=0.3, want_hist=True)
     ties = pc.tie_violations(ck, res, want_kinds=("parse", "fail"))
     st = {"results_checked": 0, "failing_action_runs": 0, "with_actions": 0, "shapes": {}}
     nontrivial = set()
@@ -45,7 +45,7 @@ def run(tier):
                     st["with_actions"] += 1
                     if len(log) >= 2:
                         nontrivial.add((r["gi"], tuple(c["w"])))
-                if c["tree"] == "notree":
+                if c["tree"] is None or c["tree"] == "notree":
                     continue     # Earley/C02 judges acceptance
                 if got != c["tree"]:
                     ck.violation("Parse result or action-call sequence differs from the post-order evaluation of the parse tree: tokens %s: parser `%s` tree `%s`" % (c["w"], got, c["tree"]),
@@ -66,6 +66,15 @@ def run(tier):
                 if bad:
                     ck.violation("%s; tokens %s failAt %d: `%s`" % (bad, c["w"], k, c["impl"]),
                                  {"bnf": r["text"], "op": c["line"], "impl": c["impl"], "tree_eval": c["tree"]})
+    # results and action calls on a parser object that was used (and failed) before
+    for r in res:
+        if not pc.is_lr1(r):
+            continue
+        for h in r["hists"]:
+            st["histories"] = st.get("histories", 0) + 1
+            if h["impl"] != h["fresh"]:
+                ck.violation("results / action calls of a reused parser differ from those of fresh parsers: history %s fails %s: reused `%s` fresh `%s`" % (h["hist"], h["fails"], h["impl"][:300], h["fresh"][:300]),
+                             {"bnf": r["text"], "op": h["line"], "reused": h["impl"], "fresh": h["fresh"]})
     ck.proof_failures(failed, "C03 theorems")
     ck.cov.update({"evaluations": st["results_checked"] + st["failing_action_runs"], "distinct_nontrivial": len(nontrivial),
                    "rule": "conflict-free random grammars whose alternatives carry one of five action shapes ($n, $Tn, $Context, X, none / empty); "
